@@ -724,6 +724,63 @@ func c17Service(r *fw.Run, transport string, useListen bool) {
 	r.Case(fw.Hash("svc", transport, fmt.Sprint(useListen)), true)
 }
 
+// c17BridgeBehaviours: bridge subprocesses that do not behave like a relay - they close their output but stay alive,
+// stay silent, exit at once, complain on stderr and exit. Whatever the bridge does, a receive returns within the bound
+// once its context has ended (or earlier, with an error of its own), and Close returns.
+func c17BridgeBehaviours(r *fw.Run, k int) {
+	bridges := []struct{ what, cmd string }{
+		{"closes its output, keeps reading its input", "exec 1>&-; exec cat >/dev/null"},
+		{"silent: reads its input, never writes", "exec cat >/dev/null"},
+		{"exits at once", "exit 0"},
+		{"complains on stderr and exits", "echo 'bridge: cannot reach the service' >&2; exit 1"},
+		{"complains on stderr, closes its output, lingers", "echo 'bridge: giving up' >&2; exec 1>&-; exec cat >/dev/null"},
+	}
+	b := bridges[k%len(bridges)]
+	cse := map[string]interface{}{"what": "bridge behaviour", "bridge": b.what, "cmd": b.cmd}
+	conn, err := varlink.NewBridgeWithStderr(b.cmd, io.Discard)
+	if err != nil {
+		r.Inconclusive("bridge %q: %v", b.what, err)
+		return
+	}
+	mode := []string{"deadline", "cancel"}[(k/len(bridges))%2]
+	ctx, cancel := context.WithTimeout(context.Background(), 60*time.Millisecond)
+	if mode == "cancel" {
+		ctx, cancel = context.WithCancel(context.Background())
+		time.AfterFunc(60*time.Millisecond, cancel)
+	}
+	defer cancel()
+	type res struct{ err error }
+	ch := make(chan res, 1)
+	go func() {
+		recv, err := conn.Send(ctx, "org.example.M", map[string]int{"n": k}, 0)
+		if err != nil {
+			ch <- res{err}
+			return
+		}
+		var out json.RawMessage
+		_, err = recv(ctx, &out)
+		ch <- res{err}
+	}()
+	select {
+	case x := <-ch:
+		if x.err == nil {
+			r.Violation("C17 no-error-after-context-end", fmt.Sprintf("bridge that %s: a call that can never be answered returned success", b.what), cse)
+		}
+	case <-time.After(10 * time.Second):
+		n, sample := ctxioGoroutines()
+		r.Violation("C17 not-unblocked", fmt.Sprintf("bridge that %s, context ended by %s after 60 ms: Send+receive has not returned 10 s later (%d goroutines inside the library's connection)\n%s", b.what, mode, n, clip(sample, 1200)), cse)
+	}
+	closed := make(chan struct{})
+	go func() { conn.Close(); close(closed) }()
+	select {
+	case <-closed:
+	case <-time.After(15 * time.Second):
+		r.Violation("C17 close-hangs", fmt.Sprintf("bridge that %s: Connection.Close has not returned within 15 s", b.what), cse)
+	}
+	r.Count("bridge_behaviour_runs", 1)
+	r.Case(fw.Hash("bridge-behaviour", b.what, mode), true)
+}
+
 func runC17(r *fw.Run) {
 	rng := rand.New(rand.NewSource(r.Seed*53 + 17))
 	cases := c17Matrix(rng, r.Pick(2, 30))
@@ -745,6 +802,11 @@ func runC17(r *fw.Run) {
 	for k := 0; k < r.Pick(2, 10); k++ {
 		c17Service(r, "unix", k%2 == 0)
 		c17Service(r, "tcp", k%2 == 1)
+	}
+	for k := 0; k < r.Pick(10, 100) && r.ViolationCount() <= 12; k++ {
+		r.Journal(0, map[string]interface{}{"what": "bridge behaviour", "k": k})
+		c17BridgeBehaviours(r, k)
+		r.Done(0)
 	}
 	_ = io.EOF
 }
@@ -774,7 +836,7 @@ func replayC17(r *fw.Run, raw json.RawMessage) {
 func init() {
 	fw.Register(&fw.Engine{
 		ID: "C17", Level: "exploration",
-		Rule: "the matrix operation in {raw Read, raw ReadBytes, raw Write, client receive, client Call, client Send} x transport in {in-memory pipe, unix socketpair, TCP pair (white-box constructor of the library's connection), real Connection over a unix socket, bridge subprocess} x {cancel, deadline} x instant in {before the call, blocked with nothing in flight, blocked after a partial frame was received, blocked with a partial frame already in the library's buffer (it had arrived in one segment with the previous, complete frame), after completion} (writes: blocked on a peer that does not read, one 8 MiB write, or consecutive 4000-byte writes until one blocks), each cell repeated with seeded cancel offsets 0..3 ms. Oracle per cell: the operation returns within 10 s of the context's end (else the goroutine dump must show it parked in the library) with context.Canceled / DeadlineExceeded / a timeout error - or, for 'after completion', success with the right bytes; then no goroutine remains inside the library's connection; then a read with a live context must BLOCK (not fail at once on a stale deadline) until the peer sends a fresh frame and must return exactly that frame, optionally preceded by a suffix of the partial frame that was in flight; a follow-up write must deliver its bytes intact after a prefix of the cancelled write; on client transports a complete Call on the same Connection must succeed. Plus the service side: idle, mid-frame, used and used-with-the-start-of-the-next-frame-in-the-same-segment connections and handlers blocked in Call.Conn Read/Write all end within 10 s of cancelling the serving context, handlers see a context error, active count returns to 0. non-trivial = any instant other than 'after completion'; distinct by cell + offset. Modes: cancel, deadline, and explicit cancel of a context that also has a distant deadline; further instant: cancel followed at once by Close of the connection (goroutine-leak monitor only). Follow-up operations use a context without deadline in two cases out of three; a third operation follows.",
+		Rule: "the matrix operation in {raw Read, raw ReadBytes, raw Write, client receive, client Call, client Send} x transport in {in-memory pipe, unix socketpair, TCP pair (white-box constructor of the library's connection), real Connection over a unix socket, bridge subprocess} x {cancel, deadline} x instant in {before the call, blocked with nothing in flight, blocked after a partial frame was received, blocked with a partial frame already in the library's buffer (it had arrived in one segment with the previous, complete frame), after completion} (writes: blocked on a peer that does not read, one 8 MiB write, or consecutive 4000-byte writes until one blocks), each cell repeated with seeded cancel offsets 0..3 ms. Oracle per cell: the operation returns within 10 s of the context's end (else the goroutine dump must show it parked in the library) with context.Canceled / DeadlineExceeded / a timeout error - or, for 'after completion', success with the right bytes; then no goroutine remains inside the library's connection; then a read with a live context must BLOCK (not fail at once on a stale deadline) until the peer sends a fresh frame and must return exactly that frame, optionally preceded by a suffix of the partial frame that was in flight; a follow-up write must deliver its bytes intact after a prefix of the cancelled write; on client transports a complete Call on the same Connection must succeed. Plus the service side: idle, mid-frame, used and used-with-the-start-of-the-next-frame-in-the-same-segment connections and handlers blocked in Call.Conn Read/Write all end within 10 s of cancelling the serving context, handlers see a context error, active count returns to 0. non-trivial = any instant other than 'after completion'; distinct by cell + offset. Modes: cancel, deadline, and explicit cancel of a context that also has a distant deadline; further instant: cancel followed at once by Close of the connection (goroutine-leak monitor only). Follow-up operations use a context without deadline in two cases out of three; a third operation follows. Bridge subprocesses that close their output but linger, stay silent, exit at once or complain on stderr: Send+receive returns within 10 s of the context's end, Close within 15 s.",
 		Assumptions: []string{"bounded progress: 10 s (normal latency: well under a millisecond)", "the 4 ms 'must still block' window is one-sided: a follow-up read that fails or returns inside it is a violation"},
 		Run:         runC17, Replay: replayC17, CrashIsViolation: true, MinEvals: 50,
 		QuickTimeout: 15 * time.Minute, ThoroughTimeout: 60 * time.Minute,
